@@ -23,7 +23,7 @@ def simpleFilters : List FilterApp → Bool
 
 mutual
   /-- the stage-3 statement fragment: text, `{{ e }}`, `set` (incl. unpacking), set-blocks and
-  filter-blocks, `if` / `elif` / `else`, `with`, `for … else` with unpacking (no loop filter, no
+  filter-blocks, `if` / `elif` / `else`, `with`, `for … if … else` with unpacking and loop filter (no
   `break` / `continue`) -/
   def simpleStmt : Stmt → Bool
     | .text _ => true
@@ -31,7 +31,8 @@ mutual
     | .set _ e => simpleExpr e
     | .ifS c t f => simpleExpr c && simpleBlock t && simpleBlock f
     | .withS binds body => simpleBinds binds && simpleBlock body
-    | .forS _ iter none body els => simpleExpr iter && simpleBlock body && simpleBlock els
+    | .forS _ iter flt body els =>
+      simpleExpr iter && (match flt with | some c => simpleExpr c | none => true) && simpleBlock body && simpleBlock els
     | .setBlock _ filters body => simpleFilters filters && simpleBlock body
     | .filterBlock filters body => simpleFilters filters && simpleBlock body
     | _ => false
@@ -64,6 +65,20 @@ def relFilters : List FilterApp → Nat → Aux → List Instr × Aux
     let rr := relFilters rest (base + ra.1.length + 1) (ra.2.filterId name).2
     (ra.1 ++ [.applyFilter name (1 + args.length) (ra.2.filterId name).1] ++ rr.1, rr.2)
 
+/-- the code in front of `PushLoop 1` of a `for`: the iterable, or — with a loop filter — the
+first loop that collects the items which pass the filter into a list -/
+def relForIter (t : Target) (iter : Expr) (flt : Option Expr) (base : Nat) (a : Aux) : List Instr × Aux :=
+  match flt with
+  | none => relExpr iter base a
+  | some c =>
+    let ri := relExpr iter (base + 1) a
+    let it1 := base + 1 + ri.1.length + 1
+    let rc := relExpr c (base + 1 + ri.1.length + 3 + (relTarget t).length) ri.2
+    let p := base + 1 + ri.1.length + 3 + (relTarget t).length + rc.1.length
+    ([.loadConst (.int 0)] ++ ri.1 ++ [.pushLoop 0, .iterate (p + 7), .dupTop] ++ relTarget t ++ rc.1 ++
+      [.jumpIfFalse (p + 5), .swap, .loadConst (.int 1), .add, .jump (p + 6), .discardTop, .jump it1,
+       .popLoopFrame, .buildList none], rc.2)
+
 mutual
   def relStmt : Stmt → Nat → Aux → List Instr × Aux
     | .text t, _, a => ([.emitRaw t], a)
@@ -83,14 +98,14 @@ mutual
       let rb := relBinds binds (base + 1) a
       let rr := relBlock body (base + 1 + rb.1.length) rb.2
       ([.pushWith] ++ rb.1 ++ rr.1 ++ [.popFrame], rr.2)
-    | .forS t iter none body [], base, a =>
-      let ri := relExpr iter base a
+    | .forS t iter flt body [], base, a =>
+      let ri := relForIter t iter flt base a
       let bb := base + ri.1.length + 2 + (relTarget t).length
       let rb := relBlock body bb ri.2
       (ri.1 ++ [.pushLoop 1, .iterate (bb + rb.1.length + 1)] ++ relTarget t ++ rb.1 ++
         [.jump (base + ri.1.length + 1), .popLoopFrame], rb.2)
-    | .forS t iter none body (e0 :: es), base, a =>
-      let ri := relExpr iter base a
+    | .forS t iter flt body (e0 :: es), base, a =>
+      let ri := relForIter t iter flt base a
       let bb := base + ri.1.length + 2 + (relTarget t).length
       let rb := relBlock body bb ri.2
       let eb := bb + rb.1.length + 4
@@ -145,6 +160,35 @@ theorem for_block (g : CG) (Ci Cb : List Instr × Aux) :
     _ unpatched _ (by simp) (by simp)]
   simp [Nat.add_assoc]; omega
 
+
+/-- `for_block` for a loop without the `loop` variable (the filter pre-pass) -/
+theorem for_block_novar (g : CG) (Ci Cb : List Instr × Aux) :
+    (((g.extend Ci).startForLoop false).extend Cb).endForLoop false =
+      g.extend (Ci.1 ++ [Instr.pushLoop 0, Instr.iterate (g.next + Ci.1.length + 2 + Cb.1.length + 1)] ++ Cb.1 ++
+        [Instr.jump (g.next + Ci.1.length + 1), Instr.popLoopFrame], Cb.2) := by
+  simp only [CG.startForLoop, CG.endForLoop, CG.extend, CG.add, CG.next, CG.patchAll, List.nil_append,
+    List.foldl, if_true, Bool.false_eq_true, if_false]
+  rw [patch_iterate _ (g.code ++ Ci.1 ++ [Instr.pushLoop 0]) (Cb.1 ++ [Instr.jump (g.code ++ Ci.1 ++ [Instr.pushLoop 0]).length] ++ [Instr.popLoopFrame])
+    _ unpatched _ (by simp) (by simp)]
+  simp [Nat.add_assoc]; omega
+
+/-- the filter pre-pass of a `for … if cond` loop around the chunks `Ci` (iterable) and `Cx`
+(`DupTop`, target, condition) -/
+theorem filter_block (g : CG) (Ci Cx : List Instr × Aux) :
+    (((((((((g.add (.loadConst (.int 0))).extend Ci).startForLoop false).extend Cx).startIf.add .swap).add
+        (.loadConst (.int 1))).add .add).startElse.add .discardTop).endIf.endForLoop false).add (.buildList none) =
+      g.extend ([Instr.loadConst (.int 0)] ++ Ci.1 ++
+        [Instr.pushLoop 0, Instr.iterate (g.next + 1 + Ci.1.length + 2 + Cx.1.length + 7)] ++ Cx.1 ++
+        [Instr.jumpIfFalse (g.next + 1 + Ci.1.length + 2 + Cx.1.length + 5), Instr.swap, Instr.loadConst (.int 1),
+         Instr.add, Instr.jump (g.next + 1 + Ci.1.length + 2 + Cx.1.length + 6), Instr.discardTop,
+         Instr.jump (g.next + 1 + Ci.1.length + 1), Instr.popLoopFrame, Instr.buildList none], Cx.2) := by
+  have e1 : ∀ (h : CG), ((h.add .swap).add (.loadConst (.int 1))).add .add =
+      h.extend ([Instr.swap, Instr.loadConst (.int 1), Instr.add], h.aux) := by
+    intro h; simp [CG.add, CG.extend]
+  rw [e1, CG.add_eq_extend _ .discardTop, if_block, CG.add_eq_extend g, CG.extend_extend]
+  simp only [aux_startIf_ext, aux_startElse_ext]
+  rw [for_block_novar, CG.add_eq_extend, CG.extend_extend]
+  simp [CG.extend, CG.next, CG.startForLoop, CG.add, Nat.add_assoc]; omega
 
 mutual
 theorem cTarget_eq_rel : ∀ (t : Target) (g : CG), cTarget t g = g.extend (relTarget t, g.aux)
@@ -201,21 +245,6 @@ theorem scope_block (g : CG) (k : ScopeKind) (C : List Instr × Aux) :
     ((g.extend C).startForLoop b).aux = C.2 := by
   simp [CG.startForLoop, CG.extend, CG.add]
 
-@[simp] theorem patch_next (g : CG) (i t : Nat) : (g.patch i t).next = g.next := by
-  unfold CG.patch; split <;> simp [CG.next]
-@[simp] theorem patch_aux (g : CG) (i t : Nat) : (g.patch i t).aux = g.aux := by
-  unfold CG.patch; split <;> rfl
-@[simp] theorem patch_pending (g : CG) (i t : Nat) : (g.patch i t).pending = g.pending := by
-  unfold CG.patch; split <;> rfl
-@[simp] theorem patchAll_next (is : List Nat) (t : Nat) : ∀ g : CG, (g.patchAll is t).next = g.next := by
-  induction is with
-  | nil => intro g; rfl
-  | cons i rest ih => intro g; simp [CG.patchAll] at ih ⊢; rw [ih]; simp
-@[simp] theorem patchAll_aux (is : List Nat) (t : Nat) : ∀ g : CG, (g.patchAll is t).aux = g.aux := by
-  induction is with
-  | nil => intro g; rfl
-  | cons i rest ih => intro g; simp [CG.patchAll] at ih ⊢; rw [ih]; simp
-
 theorem endFor_else_eq (g : CG) (Ci Cb : List Instr × Aux) :
     (((g.extend Ci).startForLoop true).extend Cb).endForLoop true =
       g.extend (Ci.1 ++ [Instr.pushLoop 1, Instr.iterate (g.next + Ci.1.length + 2 + Cb.1.length + 1)] ++ Cb.1 ++
@@ -243,6 +272,21 @@ theorem for_else_block (g : CG) (Ci Cb Ce : List Instr × Aux) :
          Instr.jumpIfFalse (g.next + Ci.1.length + 2 + Cb.1.length + 4 + Ce.1.length)] ++ Ce.1, Ce.2) := by
   rw [endFor_else_eq, if_block_noelse]
   simp [CG.extend, CG.next, Nat.add_assoc]; omega
+
+theorem filter_prefix_eq (t : Target) (iter c : Expr) (g : CG) (hi : simpleExpr iter = true)
+    (hc : simpleExpr c = true) :
+    (((((((cExpr c (cTarget t (((cExpr iter (g.add (.loadConst (.int 0)))).startForLoop false).add .dupTop))).startIf.add
+        .swap).add (.loadConst (.int 1))).add .add).startElse.add .discardTop).endIf.endForLoop false).add
+        (.buildList none)) = g.extend (relForIter t iter (some c) g.next g.aux) := by
+  rw [cExpr_eq_rel iter _ hi, CG.add_eq_extend _ .dupTop, cTarget_eq_rel, cExpr_eq_rel c _ hc,
+    CG.extend_extend, CG.extend_extend, filter_block]
+  simp [relForIter, CG.extend, CG.next, CG.startForLoop, CG.add, Nat.add_assoc]
+  have hb : g.code.length + ((relExpr iter (g.code.length + 1) g.aux).fst.length + ((relTarget t).length + 4)) =
+      g.code.length + (1 + ((relExpr iter (g.code.length + 1) g.aux).fst.length + (3 + (relTarget t).length))) := by
+    omega
+  rw [hb]
+  simp
+  omega
 
 mutual
 theorem cStmt_eq_rel : ∀ (st : Stmt) (g : CG), simpleStmt st = true →
@@ -273,17 +317,31 @@ theorem cStmt_eq_rel : ∀ (st : Stmt) (g : CG), simpleStmt st = true →
   | .forS t iter none body [], g, h => by
     have hs : simpleExpr iter = true ∧ simpleBlock body = true := by
       simpa [simpleStmt, simpleBlock] using h
-    simp only [cStmt, relStmt]
+    simp only [cStmt, relStmt, relForIter]
     rw [cExpr_eq_rel iter g hs.1, cTarget_eq_rel, cBlock_eq_rel body _ hs.2, CG.extend_extend, for_block]
     simp [Nat.add_assoc]
   | .forS t iter none body (e0 :: es), g, h => by
     have hs : (simpleExpr iter = true ∧ simpleBlock body = true) ∧ simpleBlock (e0 :: es) = true := by
       simpa [simpleStmt] using h
-    simp only [cStmt, relStmt]
+    simp only [cStmt, relStmt, relForIter]
     rw [cExpr_eq_rel iter g hs.1.1, cTarget_eq_rel, cBlock_eq_rel body _ hs.1.2, CG.extend_extend,
       cBlock_eq_rel (e0 :: es) _ hs.2, next_forElse_startIf, aux_forElse_startIf, for_else_block]
     simp [Nat.add_assoc]
-  | .forS _ _ (some _) _ _, _, h => by simp [simpleStmt] at h
+  | .forS t iter (some c) body [], g, h => by
+    have hs : (simpleExpr iter = true ∧ simpleExpr c = true) ∧ simpleBlock body = true := by
+      simpa [simpleStmt, simpleBlock] using h
+    simp only [cStmt, relStmt]
+    rw [filter_prefix_eq t iter c g hs.1.1 hs.1.2, cTarget_eq_rel, cBlock_eq_rel body _ hs.2,
+      CG.extend_extend, for_block]
+    simp [Nat.add_assoc]
+  | .forS t iter (some c) body (e0 :: es), g, h => by
+    have hs : ((simpleExpr iter = true ∧ simpleExpr c = true) ∧ simpleBlock body = true) ∧
+        simpleBlock (e0 :: es) = true := by
+      simpa [simpleStmt] using h
+    simp only [cStmt, relStmt]
+    rw [filter_prefix_eq t iter c g hs.1.1.1 hs.1.1.2, cTarget_eq_rel, cBlock_eq_rel body _ hs.1.2,
+      CG.extend_extend, cBlock_eq_rel (e0 :: es) _ hs.2, next_forElse_startIf, aux_forElse_startIf, for_else_block]
+    simp [Nat.add_assoc]
   | .setBlock x filters body, g, h => by
     have hs : simpleFilters filters = true ∧ simpleBlock body = true := by simpa [simpleStmt] using h
     simp only [cStmt, relStmt]
